@@ -11,6 +11,7 @@ import z3
 from minecraft.networking.packets.clientbound.play import PlayerListItemPacket, MapPacket
 
 from pyvc.driver import Unit
+from pyvc.models import AbstractSeq
 from pyvc.values import SInt, SBool, SStr, And, Or, Not, Implies, Unsupported, is_symbolic
 from pyvc.interp import PyRaise
 from pyvc.loops import ForSpec
@@ -195,7 +196,7 @@ def replay_playerlist(rng=None, rounds=50):
     return dict(confirmed=False, n=n, call='player list histories', observed='conform')
 
 
-class AbsActions(object):
+class AbsActions(AbstractSeq):
     def __init__(self, n):
         self.n = n
 
